@@ -588,6 +588,12 @@ impl<T: GuestMemory + ?Sized> Bytes<GuestAddress> for T {
     type E = Error;
 
     fn write(&self, buf: &[u8], addr: GuestAddress) -> Result<usize> {
+        // As documented on `Bytes::write`, an empty buffer always succeeds, even if `addr` is
+        // otherwise out of bounds.
+        if buf.is_empty() {
+            return Ok(0);
+        }
+
         self.try_access(
             buf.len(),
             addr,
@@ -598,6 +604,12 @@ impl<T: GuestMemory + ?Sized> Bytes<GuestAddress> for T {
     }
 
     fn read(&self, buf: &mut [u8], addr: GuestAddress) -> Result<usize> {
+        // As documented on `Bytes::read`, an empty buffer always succeeds, even if `addr` is
+        // otherwise out of bounds.
+        if buf.is_empty() {
+            return Ok(0);
+        }
+
         self.try_access(
             buf.len(),
             addr,
